@@ -1,6 +1,7 @@
 (* C14 driver.
    cv <fmt> <min> <max> <step> <reading> <str>   -> ok int Z | ok dec s:c:e | err format | crash | fuel
-   op <name> <prec> <mode> <a> [<b>]             -> dec s:c:e | none | cmp lt/eq/gt | int Z
+   op <name> <prec> <mode> <a> [<b>]             -> dec s:c:e | none (Overflow / division by zero) | cmp lt/eq/gt | int Z
+                                                    (the context operations with Emax = 999999: daddb, dsubb, dmulb, ddivb, dfixb)
    decimals travel as  s:coef:exp  (s = 0/1, coef and exp decimal strings), "-" = None
    reading: F:s:coef:exp | N (non-finite) | R (rejected); str: code points a,b,c or "-"
    hist <aid> <n> <char>*n <op>*   one answer word per Prepare (or "none")
@@ -57,17 +58,17 @@ let handle = function
       res_str (Convert.check_convert (fmt_of f) (opt_dec mn) (opt_dec mx) (opt_dec st) (str_of s) (reading_of r))
   | "op" :: name :: prec :: mode :: args ->
       let cx = { Convert.cprec = n_of_dec prec; crnd = mode_of mode } in
-      (match name, args with
-       | "add", [a; b] -> "dec " ^ tok_of_dec (Convert.dadd cx (dec_of_tok a) (dec_of_tok b))
-       | "sub", [a; b] -> "dec " ^ tok_of_dec (Convert.dsub cx (dec_of_tok a) (dec_of_tok b))
-       | "mul", [a; b] -> "dec " ^ tok_of_dec (Convert.dmul cx (dec_of_tok a) (dec_of_tok b))
-       | "div", [a; b] -> (match Convert.ddiv cx (dec_of_tok a) (dec_of_tok b) with
-                           | None -> "none" | Some d -> "dec " ^ tok_of_dec d)
-       | "fix", [a] -> "dec " ^ tok_of_dec (Convert.dfix cx (dec_of_tok a))
-       | "toint", [a] -> "dec " ^ tok_of_dec (Convert.to_integral (mode_of mode) (dec_of_tok a))
-       | "cmp", [a; b] -> (match Convert.dcompare (dec_of_tok a) (dec_of_tok b) with
+      (let o = function None -> "none" | Some d -> "dec " ^ tok_of_dec d in
+       match name, args with
+       | "add", [a; b] -> o (Convert.daddb cx (dec_of_tok a) (dec_of_tok b))
+       | "sub", [a; b] -> o (Convert.dsubb cx (dec_of_tok a) (dec_of_tok b))
+       | "mul", [a; b] -> o (Convert.dmulb cx (dec_of_tok a) (dec_of_tok b))
+       | "div", [a; b] -> o (Convert.ddivb cx (dec_of_tok a) (dec_of_tok b))
+       | "fix", [a] -> o (Convert.dfixb cx (dec_of_tok a))
+       | "toint", [a] -> "dec " ^ tok_of_dec (Convert.to_integral_f (mode_of mode) (dec_of_tok a))
+       | "cmp", [a; b] -> (match Convert.dcmp (dec_of_tok a) (dec_of_tok b) with
                            | Lt -> "cmp lt" | Eq -> "cmp eq" | Gt -> "cmp gt")
-       | "int", [a] -> "int " ^ dec_of_z (Convert.dec_to_Z (dec_of_tok a))
+       | "int", [a] -> "int " ^ dec_of_z (Convert.dec_to_Z_f (dec_of_tok a))
        | _ -> "bad-request")
   | _ -> "bad-request"
 let () = main_loop handle
